@@ -368,3 +368,15 @@ Theorem C11_check_kmesh_sound : forall p1 p2 n_ ds us rfft lo hi k ds' us',
     n km = k /\ dims (reg km) = ds' /\ units (reg km) = us'.
 Proof. exact check_meshf_sound. Qed.
 Print Assumptions C11_check_kmesh_sound.
+Theorem C11_check_spectrum_sound : forall real n_ bins arr,
+  check_C11 (CArr real n_ bins arr) = true ->
+  Z.of_nat (length bins) = zprod n_ /\
+  Forall2 (Forall2 (cplx_near (rel_tol * l1 bins))) (arrange [] real n_ bins) arr /\
+  Forall2 (Forall2 (cplx_near (rel_tol * l1 bins)))
+          (unarrange [] real (kshape real n_) arr) (half_spectrum [] real n_ bins).
+Proof. exact check_arr_sound. Qed.
+Print Assumptions C11_check_spectrum_sound.
+Theorem C11_shard_verdict : forall cases k,
+  failing k (map check_C11 cases) = [] -> forall c, In c cases -> check_C11 c = true.
+Proof. exact (failing_nil_all check_C11). Qed.
+Print Assumptions C11_shard_verdict.
